@@ -94,11 +94,19 @@ def check(tier='quick', seed=0):
             bad.append(dict(input=s, stored=stored, error='restart raised ' + repr(ex),
                             nonfinite=_has_nonfinite(v)))
         # precedence: a command-line value given at restart wins
-        schd2 = MagicMock()
-        schd2.template_vars = {'X': 'from the command line'}
-        Scheduler._load_template_vars(schd2, 0, ('X', stored))
-        if schd2.template_vars['X'] != 'from the command line':
-            bad.append(dict(input=s, error='restart value overrode the command line', nonfinite=False))
+        # (whatever that value is: falsy values are values too)
+        for cli in ('from the command line', False, 0, 0.0, '', [], {}, None):
+            schd2 = MagicMock()
+            schd2.template_vars = {'X': cli}
+            try:
+                Scheduler._load_template_vars(schd2, 0, ('X', stored))
+            except Exception:           # noqa: BLE001 - the stored text itself does not load: reported above
+                continue
+            got = schd2.template_vars['X']
+            if type(got) is not type(cli) or got != cli:
+                bad.append(dict(input=s, command_line_value_at_restart=repr(cli), value_after_restart=repr(got),
+                                error='the stored value overrode the command line', nonfinite=False))
+                break
         if len(samples) < 3 and s.startswith(('[', '{')):
             samples.append(dict(input=s, stored=stored))
     name = 'bounded::template variable accepted at start-up == value and type restored at restart'
